@@ -971,11 +971,15 @@ def unroll_literal_loops(func, ref_locals: Set[str]) -> bool:
     return changed
 
 
-def normalize_tree(tree, rel: str) -> bool:
+def normalize_tree(tree, rel: str, temporaries: bool = True) -> bool:
     inv = inventory().get(rel)
     if inv is None:
         return False
     changed = Inliner(tree, rel).run()
+    if not temporaries:
+        if changed:
+            ast.fix_missing_locations(tree)
+        return changed
     funcs = _functions(tree)
     for q, (func, cls, _) in funcs.items():
         ref = inv["functions"].get(q)
